@@ -44,7 +44,8 @@ CHECKS = {
         text="Theorems (Coq, every operation from every reachable state, hence every history): the UltraMatrixGraph model (petgraph IdStorage allocator with LIFO id reuse, "
              "adjacency cells, nb_edges counter, node_map, index_map, root_index) keeps its representation invariant and refines a plain directed-graph spec "
              "(same return values, same full observation); the spec's clauses (fresh index, value stable until removed, failure iff absent/duplicate and then no change, "
-             "exact edge-set effect of every op) are proved. The spec checker proved to accept the model is applied to the implementation's observed runs.",
+             "exact edge-set effect of every op) are proved. The spec checker proved to accept the model is applied to the implementation's observed runs. Bulk insertion has a closed form proved for EVERY n "
+             "(Graph/BulkAdd.v: the n-th add returns n-1, exactly the indices below n exist with their values, size n), which is the oracle of the LARGE histories (up to 1.4*10^5 nodes: index width, storage growth).",
         note=LEVEL_NOTE_COMMON + "Axioms: none. petgraph 0.7.1 MatrixGraph behaviour is modelled (not verified) and correspondence-tested; hash iteration order is removed by sorting.",
         technique="Coq proof (refinement with representation invariant, induction over histories) + differential correspondence + proved spec checker as oracle",
         design="§7 C08"),
@@ -62,7 +63,8 @@ CHECKS = {
         text="Theorems (Coq, every operation from every reachable state, hence every interleaving): base operations change only the base graph, extra-context operations only the "
              "selected extra graph (all others stay EQUAL); with nothing selected every extra mutator fails without change and readers report nothing; set_current succeeds iff "
              "id <= count; add_new returns count+1; the two index maps are independent last-write-wins maps; every step refines an abstract context whose component graphs are C08's "
-             "directed-graph spec (so lookups/relations are faithful), and the spec checker proved to accept the model is applied to the implementation's observed runs of ALL contexts.",
+             "directed-graph spec (so lookups/relations are faithful), and the spec checker proved to accept the model is applied to the implementation's observed runs of ALL contexts. Bulk insertion "
+             "through the Context API has a closed form proved for EVERY n (Context/Bulk.v: base context, and a new extra context with the base staying empty): the oracle of the LARGE histories (up to 1.4*10^5 contextoids).",
         note=LEVEL_NOTE_COMMON + "Axioms: none. Component graphs are C08's UltraGraph model; HashMaps as association lists; contextoids represented by their id.",
         technique="Coq proof (frame lemmas + refinement to abstract context, induction over histories) + differential correspondence + proved spec checker as oracle",
         design="§7 C09"),
@@ -79,7 +81,8 @@ CHECKS = {
         text="Theorem (Coq, every graph of singleton causaloids on which the traversal terminates, every id / function / observation assignment, id or index routing, every live start): "
              "reasoning returns true exactly when every causaloid reachable from the start evaluates true, false when one is false and none errors, and error-or-false (never true) when a "
              "reachable causal function errors. The model is the code's traversal (children in ascending index order, no visited set, stop index = node count); it is tied to the code by "
-             "comparing verdict, the exact sequence of causal-function calls with their observations, and is_active of every node; the oracle is an independent closure-based conjunction.",
+             "comparing verdict, the exact sequence of causal-function calls with their observations, and is_active of every node; the oracle is an independent closure-based conjunction. "
+             "A concurrent phase (two threads reasoning at the same time over one shared graph with different data, 10^6 calls per run) requires every verdict to be the model's verdict for that thread's data (stress, schedule chosen by the OS).",
         note=LEVEL_NOTE_COMMON + "Axioms: none. Termination (acyclicity) enters as 'the run does not exhaust its fuel'. The explicit iterator stack is modelled as recursion.",
         technique="Coq proof (induction on the traversal, reachability closure) + differential correspondence incl. call log + extracted reachability oracle",
         design="§7 C01"),
@@ -128,7 +131,7 @@ CHECKS = {
              "a handler handles the successor of the last sequence it returned from (in order, exactly once, no gaps), only sequences that are completely written and covered by the producer cursor, and "
              "what it sees is intact (slot not re-used, all earlier stages done with it, no later stage touched it); sequence 0 is never delivered (known finding D7). The per-thread programs of the "
              "real code are tied to the model by TRACE VALIDATION: the extracted acceptors (Disruptor/Threads.v) must accept every logged trace operation for operation (kind, location, ordering, "
-             "operand, control flow), AND every logged trace is replayed on the proof models themselves (Disruptor/PipeReplay.v on Pipeline.v, Disruptor/MultiReplay.v on MultiPub.v: each logged operation must be an enabled step of the model in the state reached, with the model's value; replay_sound: an accepted trace ends in a reachable model state, so the theorems apply to the execution just observed). The same facts hold without the atomic-snapshot abstraction and with stale loads (Disruptor/HB.v, hb_delivery). Multi producer under true concurrency (Disruptor/MultiPub.v): everything at or below the cursor - consumers never pass it - is completely written and published, in every interleaving. Monitors on every explored schedule check the property on the implementation itself; multi-producer DELIVERY of everything published is violated (stranding = known finding D8).",
+             "operand, control flow), AND every logged trace is replayed on the proof models themselves (Disruptor/PipeReplay.v on Pipeline.v, Disruptor/MultiReplay.v on MultiPub.v: each logged operation must be an enabled step of the model in the state reached, with the model's value; replay_sound: an accepted trace ends in a reachable model state, so the theorems apply to the execution just observed). The same facts hold without the atomic-snapshot abstraction and with stale loads (Disruptor/HB.v, hb_delivery). Multi producer under true concurrency (Disruptor/MultiPub.v): everything at or below the cursor - consumers never pass it - is completely written and published, in every interleaving. MULTI-PRODUCER PIPELINES OF ANY TOPOLOGY (Disruptor/MultiPipe.v = MultiPub.v composed with the handler side Handlers.v over any barrier stages; every execution projects to an execution of each component): a handler handles i only if its claimant has published i, i is the successor of what it returned from last, and no producer has claimed the next lap of that slot; logged multi-producer executions are replayed on this product model (Disruptor/MultiPipeReplay.v, accepted => reachable). Monitors on every explored schedule check the property on the implementation itself; multi-producer DELIVERY of everything published is violated (stranding = known finding D8).",
         note=LEVEL_NOTE_COMMON + "Axioms: none. " + "the deterministic scheduler hooks (cfg deepcausality_rs_deep_causality_verif) make every atomic / mutex / condvar operation and slot access of the real code a scheduling point and log it with its real Ordering; Reading several cursors is abstracted to one step returning any value not above the current values (sound by monotonicity). "
              "Multi-producer delivery is explored, not proved; C11 stale reads are not explored.",
         technique="Coq proof (inductive invariant over a small-step interleaving model) + trace validation of the hooked implementation under a deterministic scheduler + trace monitors",
@@ -142,7 +145,7 @@ CHECKS = {
              "operations per thread) is pinned by trace validation on every explored execution; an independent vector-clock race detector over the Ordering arguments the code REALLY passed runs on "
              "every explored schedule too. MULTI PRODUCER under true concurrency (Disruptor/MultiPub.v + MultiPubHB.v: any number of producers and first-stage consumers, every atomic operation a step, stale cursor "
              "loads): a producer fills a slot only when every consumer is done with its previous occupant, a consumer about to touch sequence i is ordered after every fill made so far to that slot, and a "
-             "producer about to fill is ordered after every consumer access and every fill made so far to that slot. Same-stage mutable handlers race: known finding D9 (excluded from the theorem by stage g <> stage h).",
+             "producer about to fill is ordered after every consumer access and every fill made so far to that slot. Value level for ANY topology (Disruptor/MultiPipe.v): while a producer fills its claim, every handler of every stage has returned from the previous occupant of each slot. Same-stage mutable handlers race: known finding D9 (excluded from the theorem by stage g <> stage h).",
         note=LEVEL_NOTE_COMMON + "Axioms: none. Release/acquire semantics are modelled as knowledge transfer (one writer per cursor, so no release sequences are needed); multi-producer happens-before is proved for producers + first-stage consumers (each ready bit its own location: the code packs 64 per word, which only adds synchronisation); later stages of a multi-producer pipeline are monitored per execution. C11 stale reads are not explored by the scheduler (the proof does not depend on read freshness beyond monotone lower bounds... in HB.v loads return the current value).",
         technique="Coq proof (inductive invariants over a per-cursor-read interleaving model with happens-before knowledge) + trace validation of orderings + vector-clock race detection on scheduler-controlled executions",
         design="§7.R C05"),
@@ -166,7 +169,7 @@ CHECKS = {
         design="§7.R C06"),
     "C13": dict(
         text="Theorems (Coq, same pipeline model): a stage-(k+1) handler handles sequence i only after EVERY stage-k handler returned from i; it sees the modifications of all earlier stages and "
-             "none of later ones while the slot is not re-used; gating the producer on the last stage only suffices because the last stage is the slowest (no handler of any stage is lapped). "
+             "none of later ones while the slot is not re-used; gating the producer on the last stage only suffices because the last stage is the slowest (no handler of any stage is lapped). The same stage-order theorems hold for MULTI-PRODUCER pipelines of any topology (Disruptor/MultiPipe.v: multi-producer sequencer under true concurrency composed with the handler stages). "
              "Trace validation, replay of every logged execution on the proof model (Disruptor/PipeReplay.v: accepted => reachable state of Pipeline.v, theorem replay_sound) and monitors (stage order, overwrite) on every explored schedule.",
         note=LEVEL_NOTE_COMMON + "Axioms: none. " + "the deterministic scheduler hooks (cfg deepcausality_rs_deep_causality_verif) make every atomic / mutex / condvar operation and slot access of the real code a scheduling point and log it with its real Ordering; ",
         technique="Coq proof (cursor chain along the stages, inductive invariant) + trace validation + trace monitors under a deterministic scheduler",
